@@ -1,6 +1,11 @@
 import MtxVerif.Model.C21
-import MtxVerif.Gen.C21
 open MtxVerif MtxVerif.C21
+
+/-
+The driver does NOT import Gen/C21: the model it runs is the behaviour the property asks for (the `Wait`
+closure returns the exit code), so the spec half keeps evaluating whatever the fact extractor finds.
+The regenerated facts are used by the theorems only (Props/C21: `tie_*`).
+-/
 
 /-- `hexK:hexV,hexK:hexV` or `-` -/
 def parseEnv (s : String) : Option Env :=
@@ -84,7 +89,7 @@ def zipSpec (env osenv : Env) : List Bytes → List Bytes → Option String
   | _, _ => none
 
 /-- the property's spec on a `run` op -/
-def specRun (rc : Bool) (split : Option (List Bytes)) (env osenv : Env) (code : Nat) (impl : String) : String :=
+def specRun (split : Option (List Bytes)) (env osenv : Env) (code : Nat) (impl : String) : String :=
   match split with
   | none => "ok"
   | some [] => "ok"            -- empty command: outside the property (model still predicts a panic)
@@ -107,14 +112,15 @@ def specRun (rc : Bool) (split : Option (List Bytes)) (env osenv : Env) (code : 
         | none =>
           if code == 0 then "ok"
           else if r.report == s!"code:{code}" then "ok"
-          else if r.report == "none" && exitCodeDropped rc code then
-            s!"KNOWN exitCodeDropped exit status {code} reported as success"
           else s!"FAIL exit status {code} reported as {r.report}"
 
+/-- words of the hook command the `hk` op configures (after the helper program):
+`$MTX_QUERY ${MTX_READER_ID} $MTX_PATH-$G1` -/
+def hookWords : List Bytes :=
+  [strBytes "$MTX_QUERY", strBytes "${MTX_READER_ID}", strBytes "$MTX_PATH-$G1"]
+
 def step (_ : Unit) (op impl : String) : Unit × DrvOut :=
-  -- `none` = the extractor did not recognise the Wait closure: no prediction for runs ("-"), spec only
-  let rc? := MtxVerif.Gen.C21.waitReturnsExitCode?
-  let rc := rc?.getD true
+  let rc := true
   match words op with
   | ["reset"] => ((), { model := "ok" })
   | ["exp", w, e, o] =>
@@ -135,7 +141,40 @@ def step (_ : Unit) (op impl : String) : Unit × DrvOut :=
       -- the harness prepends the helper program (a NUL-free, `$`-free path) to the template
       let split' := split.map (fun ws => ([] : Bytes) :: ws)
       let m := runCmd rc split' true env osenv code
-      ((), { model := if rc?.isSome then fmtOutcome env osenv m else "-", spec := specRun rc split' env osenv code impl })
+      ((), { model := fmtOutcome env osenv m, spec := specRun split' env osenv code impl })
+    | _, _, _, _ => ((), { model := "bad-op" })
+  | ["rst", _tmpl, sp, e, o, code, n] =>
+    match parseSplit sp, parseEnv e, parseEnv o, code.toNat?, n.toNat? with
+    | some split, some env, some osenv, some code, some n =>
+      let split' := split.map (fun ws => ([] : Bytes) :: ws)
+      let ms := runsRestart rc split' true env osenv code n
+      let model := " | ".intercalate (ms.map (fmtOutcome env osenv))
+      let segs := impl.splitOn " | "
+      let spec :=
+        if segs.length != n then s!"FAIL expected {n} runs of the restarting hook, saw {segs.length}: {impl}"
+        else
+          let vs := (List.range n).zip segs |>.map fun (k, seg) => (k, specRun split' env osenv code seg)
+          match vs.find? (fun kv => kv.2 != "ok") with
+          | some (k, v) => s!"FAIL run {k + 1} of the restarting hook: " ++ (v.drop 5).toString
+          | none => "ok"
+      ((), { model, spec })
+    | _, _, _, _, _ => ((), { model := "bad-op" })
+  | ["hk", nameH, portH, groupsS, mode, q1, t1, i1, q2, t2, i2, _raw1, _raw2] =>
+    match Hex.decode nameH, Hex.decode portH, parseSplit groupsS, [q1, t1, i1, q2, t2, i2].mapM Hex.decode with
+    | some name, some port, some (some groups), some [q1, t1, i1, q2, t2, i2] =>
+      let e1 := readHookEnv name port groups q1 t1 i1
+      let e2 := readHookEnv name port groups q2 t2 i2
+      let order : List (Nat × Env) := if mode == "ru" then [(1, e1), (2, e2), (1, e1), (2, e2)] else [(1, e1), (2, e2)]
+      let fmt (e : Env) : String := s!"argv={fmtWords (hookWords.map (expandEnv e []))} env={fmtSeen e []}"
+      let model := " | ".intercalate (order.map fun x => fmt x.2)
+      let segs := impl.splitOn " | "
+      let spec :=
+        if segs.length != order.length then s!"FAIL expected {order.length} hook commands, saw: {impl}"
+        else match (order.zip segs).find? (fun x => fmt x.1.2 != x.2) with
+          | some ((j, e), seg) =>
+            s!"FAIL a hook command of reader {j} did not receive the values of that reader: expected {fmt e} got {seg}"
+          | none => "ok"
+      ((), { model, spec })
     | _, _, _, _ => ((), { model := "bad-op" })
   | ["raw", _cmd, sp, e, o] =>
     match parseSplit sp, parseEnv e, parseEnv o with
